@@ -576,6 +576,9 @@ type xfSrvSpec struct {
 	// rs only: the FilePut handler has no OpenFile method (it is not an sftp.OpenFileWriter). A read-write open is then
 	// served by Filewrite: writes work, READs through that handle are refused by the server.
 	NoOFW bool `json:"no_open_file_writer,omitempty"`
+	// rs only: the handlers are the package's own example backend sftp.InMemHandler() (xfer_inmem.go) instead of the
+	// harness's xfMemFS
+	InMem bool `json:"inmem_handler,omitempty"`
 }
 
 func (s xfSrvSpec) String() string {
@@ -592,6 +595,9 @@ func (s xfSrvSpec) String() string {
 	if s.NoOFW {
 		t += "-openfilewriter"
 	}
+	if s.InMem {
+		t = "InMemHandler:" + t
+	}
 	return t
 }
 
@@ -607,6 +613,7 @@ type xfReal struct {
 	OS    *sftp.Server
 	RS    *sftp.RequestServer
 	Mem   *xfMemFS
+	IM    *xfInMem    // rs with Spec.InMem: the package's own example backend (Mem is nil then)
 	Tap   *xfFrameTap // every request frame the server has read (type and first string field)
 	Dir   string
 	done  chan struct{}
@@ -653,11 +660,17 @@ func xfStartPair(spec xfSrvSpec, cfg xfCfg, dir string) (*xfReal, error) {
 		if spec.MaxTx != 0 {
 			ro = append(ro, sftp.WithRSMaxTxPacket(spec.MaxTx))
 		}
-		p.Mem = xfNewMemFS()
-		p.Mem.tap = p.Tap
-		h := p.Mem.Handlers()
-		if spec.NoOFW {
-			h.FilePut = xfMemPutOnly{p.Mem}
+		var h sftp.Handlers
+		if spec.InMem {
+			p.IM = xfNewInMem(xfClass(spec))
+			h = p.IM.h
+		} else {
+			p.Mem = xfNewMemFS()
+			p.Mem.tap = p.Tap
+			h = p.Mem.Handlers()
+			if spec.NoOFW {
+				h.FilePut = xfMemPutOnly{p.Mem}
+			}
 		}
 		rs := sftp.NewRequestServer(rwc, h, ro...)
 		p.RS = rs
@@ -698,6 +711,9 @@ func (p *xfReal) Put(name string, b []byte) error {
 	if p.Spec.Kind == "os" {
 		return os.WriteFile(p.Path(name), b, 0o644)
 	}
+	if p.IM != nil {
+		return p.IM.Put(p.Path(name), b)
+	}
 	p.Mem.Put(p.Path(name), b)
 	return nil
 }
@@ -705,6 +721,9 @@ func (p *xfReal) Put(name string, b []byte) error {
 func (p *xfReal) Get(name string) ([]byte, error) {
 	if p.Spec.Kind == "os" {
 		return os.ReadFile(p.Path(name))
+	}
+	if p.IM != nil {
+		return p.IM.Get(p.Path(name))
 	}
 	b, ok := p.Mem.Get(p.Path(name))
 	if !ok {
@@ -721,6 +740,9 @@ func (p *xfReal) Remove(name string) error {
 			return nil
 		}
 		return err
+	}
+	if p.IM != nil {
+		return p.IM.Remove(p.Path(name))
 	}
 	p.Mem.Delete(p.Path(name))
 	return nil
@@ -762,9 +784,29 @@ type xfMemFS struct {
 	// the latest open the handlers saw: which method was called and the flags the request showed it
 	lastOpen xfMemOpen
 	// fault: the backend behind the handlers breaks at a byte offset of the served file (see xfHFault, xfer_fault.go)
-	fault    *xfHFault
-	faultErr error
-	faultHit int // ReadAt/WriteAt calls that met the fault
+	fault     *xfHFault
+	faultErr  error
+	faultErr2 error // the second fault's error (xfHFault.Err2), nil: none
+	faultHit  int   // ReadAt/WriteAt calls that met the fault
+	// closeErr: the Close() of the file objects the handlers hand out fails with this error (the object is closed all
+	// the same; C12: what the client makes of a CLOSE that is answered with a failure)
+	closeErr error
+}
+
+// SetCloseErr makes the Close() of every file object fail with the named error value of xfHandlerErrs ("": succeed).
+func (m *xfMemFS) SetCloseErr(name string) error {
+	m.mu.Lock()
+	defer m.mu.Unlock()
+	m.closeErr = nil
+	if name == "" {
+		return nil
+	}
+	k, ok := xfHErrByName(name)
+	if !ok {
+		return fmt.Errorf("unknown error value %q", name)
+	}
+	m.closeErr = k.Err
+	return nil
 }
 
 // xfMemOpen is what a handler saw of an OPEN request.
@@ -846,7 +888,11 @@ func (h *xfMemHandle) ReadAt(b []byte, off int64) (int, error) {
 	if off < 0 {
 		return 0, os.ErrInvalid
 	}
-	if ft := h.m.fault; ft != nil && ft.Op == "read" && len(b) > 0 && off+int64(len(b)) > ft.At {
+	if ft := h.m.fault; ft != nil && ft.Op == "read" && len(b) > 0 && h.m.faultErr2 != nil && off >= ft.At2 {
+		h.m.faultHit++
+		return 0, h.m.faultErr2
+	}
+	if ft := h.m.fault; ft != nil && ft.Op == "read" && ft.touches(off, len(b)) {
 		// the backend delivers nothing at or beyond At: the bytes below it (Partial) or nothing, and the error
 		h.m.faultHit++
 		n := 0
@@ -874,7 +920,11 @@ func (h *xfMemHandle) WriteAt(b []byte, off int64) (int, error) {
 	if h.m.limit > 0 && len(b) > 0 && off+int64(len(b)) > h.m.limit {
 		return 0, xfErrQuota
 	}
-	if ft := h.m.fault; ft != nil && ft.Op == "write" && len(b) > 0 && off+int64(len(b)) > ft.At {
+	if ft := h.m.fault; ft != nil && ft.Op == "write" && len(b) > 0 && h.m.faultErr2 != nil && off >= ft.At2 {
+		h.m.faultHit++
+		return 0, h.m.faultErr2
+	}
+	if ft := h.m.fault; ft != nil && ft.Op == "write" && ft.touches(off, len(b)) {
 		// the backend stores nothing at or beyond At: the bytes below it (Partial: (n > 0, err)) or nothing, and the error
 		h.m.faultHit++
 		n := 0
@@ -903,7 +953,7 @@ func (h *xfMemHandle) Close() error {
 	defer h.m.mu.Unlock()
 	h.closed = true
 	h.m.Closes++
-	return nil
+	return h.m.closeErr
 }
 
 func (m *xfMemFS) Fileread(r *sftp.Request) (io.ReaderAt, error) {
